@@ -155,6 +155,19 @@ class Prop(common.PropertyCheck):
                 res[sheet + '_added'] = list(out.columns[len(src.columns):])
                 if sheet == 'Samples':
                     res['notes'] = [str(x) for x in out['Analysis Notes']]
+            if case['hist'] and 'Histograms' in res['sheets']:
+                h = pd.read_excel(outp, sheet_name='Histograms', engine='openpyxl')
+                res['hist_head'] = [str(c) for c in h.columns[:3]]
+                rows_h = []
+                if list(h.columns[:2]) == ['Sample ID', 'Channel']:
+                    bins = [c for c in h.columns if str(c).startswith('Bin ')]
+                    for _, r in h.iterrows():
+                        rows_h.append([str(r['Sample ID']), str(r['Channel']), str(r[h.columns[2]]), float(np.nansum(np.asarray(r[bins], dtype=float)))])
+                res['hist_rows'] = rows_h
+                nev = pd.read_excel(outp, sheet_name='Samples', engine='openpyxl').set_index('ID')['Number of Events']
+                res['nev'] = {str(k): (None if pd.isnull(v) else int(v)) for k, v in nev.items()}
+                res['expected_pairs'] = sorted([str(r['ID']), c[:-6]] for _, r in samples[samples['ID'].notnull()].iterrows()
+                                               for c in samples.columns if c.endswith(' Units') and not pd.isnull(r[c]))
             res['problems'] = problems
             res['report_channels'] = [c[:-6] for c in samples.columns if c.endswith(' Units')]
             figs = []
@@ -215,6 +228,16 @@ class Prop(common.PropertyCheck):
             return impl['problems'][0]
         if any(n.startswith('ERROR') for n in impl['notes']):
             return 'a row of a well-formed workbook reports %s' % [n for n in impl['notes'] if n.startswith('ERROR')][:1]
+        if case['hist']:
+            if impl.get('hist_head', [None, None])[:2] != ['Sample ID', 'Channel']:
+                return 'Histograms sheet does not identify its rows: first columns are %s' % impl.get('hist_head')
+            got = sorted([r[0], r[1]] for r in impl['hist_rows'] if r[2] == 'Counts')
+            got_c = sorted([r[0], r[1]] for r in impl['hist_rows'] if r[2].startswith('Bin Centers'))
+            if got != impl['expected_pairs'] or got_c != impl['expected_pairs']:
+                return 'Histograms sheet rows %s / %s, expected one Counts and one Bin Centers row for each of %s' % (got, got_c, impl['expected_pairs'])
+            for r in impl['hist_rows']:
+                if r[2] == 'Counts' and not (0 < r[3] <= (impl['nev'].get(r[0]) or 0)):
+                    return 'Histograms sheet: counts of %s %s sum to %s, the sample has %s events' % (r[0], r[1], r[3], impl['nev'].get(r[0]))
         if impl['missing_figures']:
             return 'documented figure files missing: %s' % impl['missing_figures']
         return None
